@@ -525,6 +525,9 @@ pub mod core {
 #[cfg(feature = "python")]
 mod py;
 
+#[cfg(feature = "verif")]
+pub mod verif;
+
 #[cfg(test)]
 mod tests {
     pub fn init() {
